@@ -74,6 +74,11 @@ def gen_source(rng, hazardous=True) -> Src:
 
     def bc(did, depth):
         t = "/* " + comment_text(rng, hazardous) + " */"
+        if hazardous and rng.random() < 0.25:
+            # boxed / banner style: runs of stars of either parity at both ends
+            body = comment_text(rng, hazardous)
+            t = rng.choice(["/** " + body + " **/", "/*** " + body + " ***/", "/*" + "*" * rng.randrange(1, 9) + "/", "/* " + body + " ****/"])
+            s.nontrivial = True
         others = [x for x in s.block_comments if x[0] != did and not x[2].startswith("/*-")]
         if others and rng.random() < 0.25:
             t = rng.choice(others)[2]          # the same block comment text again, in another dict / at another level
